@@ -127,7 +127,7 @@ func try(f func()) (res string) {
 // workDir is the worker process's private scratch directory.
 var workDir = "."
 
-var tableNames = []string{"ta", "tb", "tc", "td"}
+var tableNames = []string{"ta", "tb", "tc", "td", "views2"} // (a name that only starts like the views section of a dump)
 var colNames = []string{"a", "b", "c", "d", "e"}
 var viewNames = []string{"va", "vb", "vc", "vd", "ve", "vf"}
 
@@ -1118,6 +1118,11 @@ func Run(s *simrt.Sim, mode string, ri *hkit.RunInfo) {
 		// historical lookups "a moment ago" while persists are in progress: the answer given
 		// then must still be the right one when all states are known at the end
 		gs := s.Tape.Stream("asof-reader")
+		type futureQ struct {
+			f  int64
+			db *db19.Database
+		}
+		var future []futureQ
 		s.GoNamed("asof-reader", func() {
 			for !historyDone && !s.Over() {
 				simrt.Sleep(time.Duration(1+gs.Choose(2500)) * time.Millisecond)
@@ -1126,12 +1131,30 @@ func Run(s *simrt.Sim, mode string, ri *hkit.RunInfo) {
 				}
 				h.dbMu.Lock()
 				if h.db != nil {
-					t := simrt.Now().UnixMilli() - int64(gs.Choose(3000)) - 1
-					var r int64
-					res := try(func() { r = h.db.NewReadTran().Asof(t) })
-					if res == "" && r != 0 {
-						h.asofLog = append(h.asofLog, asofQuery{t, r})
-						h.ri.Count("asof.concurrent-queries", 1)
+					now := simrt.Now().UnixMilli()
+					t := now - int64(gs.Choose(3000)) - 1
+					switch {
+					case gs.Coin(1, 4):
+						// a time that is still in the future (a client whose clock is ahead): the
+						// answer is the current state; the same time is asked again once it has passed
+						f := now + 1 + int64(gs.Choose(3000))
+						try(func() { h.db.NewReadTran().Asof(f) })
+						future = append(future, futureQ{f, h.db})
+						t = 0
+					case len(future) > 0 && future[0].f < now:
+						if future[0].db == h.db {
+							t = future[0].f
+							h.ri.Count("asof.future-time-asked-again", 1)
+						}
+						future = future[1:]
+					}
+					if t != 0 {
+						var r int64
+						res := try(func() { r = h.db.NewReadTran().Asof(t) })
+						if res == "" && r != 0 {
+							h.asofLog = append(h.asofLog, asofQuery{t, r})
+							h.ri.Count("asof.concurrent-queries", 1)
+						}
 					}
 				}
 				h.dbMu.Unlock()
